@@ -39,7 +39,7 @@ def Ctx.subscriptionReply (c : Ctx) (t : Topic) (a : Actor) (mode : String) (pri
   | some res =>
     let hasJoined := match res.modeChanged with
       | some (w, g) => isJoiner (w &&& g)
-      | none => true
+      | none => (match t.pud? a.uid with | some p => isJoiner (eff p) | none => true)   -- nothing changed: as before
     -- attach the session
     let (c, t) :=
       if hasJoined then
@@ -658,52 +658,61 @@ def Ctx.opUnload (c : Ctx) (tn : TName) : Ctx × String :=
   | none => (c, "notloaded")
   | some t => if !t.sessions.isEmpty then (c, "busy") else (c.terminateTopic t, "")
 
-/-- background session's timer fired: sessToForeground (topic.go:831-852) on every topic the session is attached to -/
-def Ctx.opFg (c : Ctx) (sid : Sid) : Ctx :=
+/-- sessToForeground (topic.go:831-852) on one group topic the session is attached to -/
+def Ctx.fgTopic (c : Ctx) (sid : Sid) (tn : TName) : Ctx :=
+  match c.w.live? tn with
+  | none => c
+  | some t =>
+    -- the update travels over Topic.supd, which a freshly created (never reloaded) group topic does not have
+    if !t.hasSupd then c else
+    match t.sessions.find? (·.1 = sid) with
+    | none => c
+    | some (_, uid) =>
+      let p := t.pud uid
+      let t := t.setPud uid { p with online := p.online + 1 }
+      let (c, t) :=
+        if !t.loaded then (c, { t with loaded := true })
+        else if (t.pud uid).online = 1 then (c.presOnline t { what := "on", src := uid, filterIn := modeRead, skipSid := sid }, t)
+        else (c, t)
+      c.putLive t
+
+/-- background session's timer fired: every topic the session is attached to learns that it is in the foreground now;
+`step` is what one topic does with the news -/
+def Ctx.opFgWith (c : Ctx) (sid : Sid) (step : Ctx → Sid → TName → Ctx) : Ctx :=
   match c.w.sess? sid with
   | none => c
   | some s =>
     -- the timer is honoured once: a session already in the foreground ignores it (session write loop)
     if !s.bg then c else
     let c := { c with w := c.w.setSess { s with bg := false } }
-    s.subs.foldl (fun c tn =>
-      match c.w.live? tn with
-      | none => c
-      | some t =>
-        -- the update travels over Topic.supd, which a freshly created (never reloaded) group topic does not have
-        if !t.hasSupd then c else
-        match t.sessions.find? (·.1 = sid) with
-        | none => c
-        | some (_, uid) =>
-          let p := t.pud uid
-          let t := t.setPud uid { p with online := p.online + 1 }
-          let (c, t) :=
-            if !t.loaded then (c, { t with loaded := true })
-            else if (t.pud uid).online = 1 then (c.presOnline t { what := "on", src := uid, filterIn := modeRead, skipSid := sid }, t)
-            else (c, t)
-          c.putLive t) c
+    s.subs.foldl (fun c tn => step c sid tn) c
 
-/-- the connection is gone (Session.cleanUp → unsubAll → Topic.unregisterSession with init = false): every topic the session
-is attached to handles a leave on behalf of whoever the session is attached as; no replies -/
-def Ctx.opDrop (c : Ctx) (sid : Sid) : Ctx :=
+def Ctx.opFg (c : Ctx) (sid : Sid) : Ctx := c.opFgWith sid Ctx.fgTopic
+
+/-- Topic.unregisterSession with init = false on one group topic: a leave on behalf of whoever the session is attached as -/
+def Ctx.dropTopic (c : Ctx) (s : Sess) (tn : TName) : Ctx :=
+  match c.w.live? tn with
+  | none => c
+  | some t =>
+    if t.inactive then c else
+    match t.sessions.find? (·.1 = s.sid) with
+    | none => c
+    | some (_, suid) =>
+      let t := { t with sessions := t.sessions.filter (·.1 ≠ s.sid) }
+      let c := { c with w := c.w.detach s.sid tn }
+      -- a session still in the background was never counted
+      let pud := t.pud suid
+      let pud := if !s.bg then { pud with online := pud.online - 1 } else pud
+      let t := if !s.bg then t.setPud suid pud else t
+      let c := if pud.online = (0 : Int) then c.presOnline t { what := "off", src := suid, filterIn := modeRead } else c
+      c.putLive t
+
+/-- the connection is gone (Session.cleanUp → unsubAll): every topic the session is attached to handles it; no replies -/
+def Ctx.opDropWith (c : Ctx) (sid : Sid) (step : Ctx → Sess → TName → Ctx) : Ctx :=
   match c.w.sess? sid with
   | none => c
-  | some s =>
-    s.subs.foldl (fun c tn =>
-      match c.w.live? tn with
-      | none => c
-      | some t =>
-        if t.inactive then c else
-        match t.sessions.find? (·.1 = sid) with
-        | none => c
-        | some (_, suid) =>
-          let t := { t with sessions := t.sessions.filter (·.1 ≠ sid) }
-          let c := { c with w := c.w.detach sid tn }
-          -- a session still in the background was never counted
-          let pud := t.pud suid
-          let pud := if !s.bg then { pud with online := pud.online - 1 } else pud
-          let t := if !s.bg then t.setPud suid pud else t
-          let c := if pud.online = (0 : Int) then c.presOnline t { what := "off", src := suid, filterIn := modeRead } else c
-          c.putLive t) c
+  | some s => s.subs.foldl (fun c tn => step c s tn) c
+
+def Ctx.opDrop (c : Ctx) (sid : Sid) : Ctx := c.opDropWith sid Ctx.dropTopic
 
 end Tinode.World
